@@ -309,8 +309,14 @@ fn build<R: Ord + Send + Sync + 'static>(sel: &Sel) -> Node<R> {
         Sel::Dyn(list) => {
             let mut it = list.iter();
             let Some((first, w0)) = it.next() else { return plain(std::sync::Arc::new(Failing)) };
+            let use_it = USE_WHILE_BUILDING.with(std::cell::Cell::get);
+            let nobody: Pop<R> = Vec::new();
             let mut d: DynWeighted<Pop<R>> = DynWeighted::new(build::<R>(first), *w0);
             for (m, w) in it {
+                if use_it {
+                    // (selecting from an empty population is enough to make the list consult its weights)
+                    let _ = d.select(&nobody, &mut simcore::FastRng::new(*w as u64));
+                }
                 d = d.with_selector(build::<R>(m), *w);
             }
             plain(std::sync::Arc::new(d))
@@ -460,6 +466,51 @@ fn run_huge(delta: i64, log2: u32, spec: &RngSpec, obs: &mut Obs) -> Vec<Violati
     v
 }
 
+thread_local! {
+    /// fault: the user's comparison panics (armed only during an earlier, caught call on the same selector value)
+    static ARMED: std::cell::Cell<bool> = const { std::cell::Cell::new(false) };
+    /// legal variation: a `DynWeighted` list is selected from between its builder calls
+    static USE_WHILE_BUILDING: std::cell::Cell<bool> = const { std::cell::Cell::new(false) };
+}
+
+/// A user-defined result type whose comparison can be made to panic (a score wrapper that `expect`s on NaN is
+/// the everyday case). Larger is better.
+#[derive(Clone, Debug)]
+struct Touchy(i64);
+
+impl From<i64> for Touchy {
+    fn from(v: i64) -> Self {
+        Self(v)
+    }
+}
+
+impl<'a> std::iter::Sum<&'a Touchy> for Touchy {
+    fn sum<I: Iterator<Item = &'a Touchy>>(iter: I) -> Self {
+        Self(iter.map(|t| t.0).fold(0i64, i64::wrapping_add))
+    }
+}
+
+impl PartialEq for Touchy {
+    fn eq(&self, other: &Self) -> bool {
+        self.cmp(other) == std::cmp::Ordering::Equal
+    }
+}
+
+impl Eq for Touchy {}
+
+impl PartialOrd for Touchy {
+    fn partial_cmp(&self, other: &Self) -> Option<std::cmp::Ordering> {
+        Some(self.cmp(other))
+    }
+}
+
+impl Ord for Touchy {
+    fn cmp(&self, other: &Self) -> std::cmp::Ordering {
+        assert!(!ARMED.with(std::cell::Cell::get), "user comparison failed (injected)");
+        self.0.cmp(&other.0)
+    }
+}
+
 fn run_tree<R>(rows: &[Vec<i64>], sel: &Sel, spec: &RngSpec, obs: &mut Obs) -> Vec<Violation>
 where
     R: Ord + Send + Sync + 'static + From<i64> + Clone + for<'a> std::iter::Sum<&'a R>,
@@ -487,8 +538,25 @@ where
     if warm {
         obs.hit("probe.selector-value-used-before-the-checked-call");
     }
+    // fault: an EARLIER call on the same selector value panicked in user code (the comparison of a user-defined
+    // result type) and the caller caught the panic; the checked call itself is perfectly ordinary
+    let faulty_warm = spec.seed % 7 == 3;
+    let use_while_building = spec.seed % 5 == 2;
+    let mut user_panics = 0u64;
     let r = catch(|| {
+        USE_WHILE_BUILDING.with(|c| c.set(use_while_building));
         let node = build::<R>(sel);
+        USE_WHILE_BUILDING.with(|c| c.set(false));
+        if faulty_warm {
+            let wp: Pop<R> = make_pop(&warm_rows);
+            let mut wr = SimRng::seeded(spec.seed ^ 0x1357_9bdf);
+            ARMED.with(|c| c.set(true));
+            let caught = catch(|| node.select(&wp, &mut wr).is_ok());
+            ARMED.with(|c| c.set(false));
+            if caught.is_err() {
+                user_panics += 1;
+            }
+        }
         if warm {
             let wp: Pop<R> = make_pop(&warm_rows);
             let mut wr = SimRng::seeded(spec.seed ^ 0x77a2_11f0);
@@ -496,8 +564,11 @@ where
         }
         node.select(&pop, &mut rng).map(|r| pop.iter().position(|x| std::ptr::eq(x, r)))
     });
+    ARMED.with(|c| c.set(false));
+    USE_WHILE_BUILDING.with(|c| c.set(false));
     obs.count("draws", rng.draws());
     obs.count("fault.adversarial-stream-words", rng.boundary_fired());
+    obs.count("fault.user-comparison-panicked-in-an-earlier-call", user_panics);
     let mut v = Vec::new();
     let cfg = || format!("population of {} (result lengths {lens:?}), selector {sel:?}", pop.len());
     match r {
@@ -863,6 +934,7 @@ impl Check for C06 {
             "fault.zero-total-weight",
             "probe.population-of-2^32-zero-sized-individuals",
             "probe.selector-value-used-before-the-checked-call",
+            "fault.user-comparison-panicked-in-an-earlier-call",
         ]
     }
 
@@ -885,6 +957,35 @@ impl Check for C06 {
 
     fn generate(&self, g: &mut Xo, _tier: Tier, run: u64) -> Sc {
         let rng = RngSpec::swarm(g);
+        if run % 100_000 == 4321 {
+            // populations beyond 16 bits (65 536 .. 140 000 individuals with 0..=3 results each)
+            let n = match g.below(4) {
+                0 => 65_536,
+                1 => 70_000,
+                _ => g.log_uniform(65_536, 140_000),
+            };
+            let cases = g.urange(0, 3);
+            let ragged = g.chance(1, 4);
+            let pop = (0..n)
+                .map(|i| {
+                    let c = if ragged && i % 1000 == 999 { g.urange(0, cases) } else { cases };
+                    (0..c).map(|_| g.range(0, 2) as i64).collect()
+                })
+                .collect();
+            let leaf = match g.below(6) {
+                0 => Sel::Lexicase(cases),
+                1 | 2 => Sel::Lexicase(cases + g.urange(1, 2)),
+                3 => Sel::Tournament(*g.pick(&[1usize, 2, 7, n, n + 1])),
+                4 => Sel::Random,
+                _ => Sel::Best,
+            };
+            let sel = match g.below(4) {
+                0 => Sel::Dyn(vec![(leaf, g.urange(1, 3)), (Sel::Failing, 0)]),
+                1 => Sel::Via(Route::BoxDyn, Box::new(leaf)),
+                _ => leaf,
+            };
+            return Sc::Tree { polarity: if g.coin() { Polarity::Score } else { Polarity::Error }, pop, sel, rng };
+        }
         match g.below(10) {
             0 | 1 => {
                 let n = if g.chance(1, 30) { g.log_uniform(7, 1000) } else { g.urange(0, 6) };
@@ -940,6 +1041,7 @@ impl Check for C06 {
     fn execute(&self, sc: &Sc, obs: &mut Obs) -> Vec<Violation> {
         match sc {
             Sc::Tree { polarity, pop, sel, rng } => match polarity {
+                Polarity::Score if rng.seed % 7 == 3 => run_tree::<Touchy>(pop, sel, rng, obs),
                 Polarity::Score => run_tree::<Score<i64>>(pop, sel, rng, obs),
                 Polarity::Error => run_tree::<ErrR<i64>>(pop, sel, rng, obs),
             },
